@@ -208,7 +208,27 @@ theorem frameSizeSelect_legal (f vd fs r : Int) (h : frameSizeSelect f vd fs = r
       · omega
       · split at h
         · omega
-        · subst h; constructor <;> omega
+        · split at h
+          · omega
+          · subst h; constructor <;> omega
+
+/-- An accepted size is at most 120 ms — tested BEFORE any multiplication (fix 212cbc41), so the
+    products `400*new_size` … are formed only for `new_size ≤ 6*Fs/50`. -/
+theorem frameSizeSelect_le (f vd fs r : Int) (h : frameSizeSelect f vd fs = r) (hr : r ≠ -1) : r ≤ 6 * fs / 50 := by
+  unfold frameSizeSelect at h
+  split at h
+  · omega
+  · simp only [] at h
+    split at h
+    · omega
+    · rename_i newSize _
+      split at h
+      · omega
+      · split at h
+        · omega
+        · split at h
+          · omega
+          · omega
 
 theorem apiSizes_of_eq {fs r : Int} (hfs : fs ∈ rates)
     (h : 400 * r = fs ∨ 200 * r = fs ∨ 100 * r = fs ∨ 50 * r = fs ∨ 25 * r = fs ∨ 50 * r = 3 * fs ∨
@@ -226,7 +246,9 @@ theorem frameSizeSelect_arg (f fs r : Int) (h : frameSizeSelect f FRAMESIZE_ARG 
   · simp only [FRAMESIZE_ARG, ite_true] at h
     split at h
     · omega
-    · split at h <;> omega
+    · split at h
+      · omega
+      · split at h <;> omega
 
 /-- Numerator of the nine Opus frame durations in units of 2.5 ms, by OPUS_FRAMESIZE_* argument. -/
 def durNum (vd : Int) : Int := [1, 2, 4, 8, 16, 24, 32, 40, 48].getD (vd - 5001).toNat 0
@@ -262,7 +284,9 @@ theorem frameSizeSelect_fixed (f vd fs r : Int) (hfs : fs ∈ rates) (hvd : 5001
       · omega
       · split at h
         · omega
-        · exact ⟨h.symm, by omega⟩
+        · split at h
+          · omega
+          · exact ⟨h.symm, by omega⟩
   rw [key.1]; exact ⟨ht, by rw [← key.1]; exact key.2⟩
 
 end Opus.EncDecide
